@@ -23,6 +23,8 @@ type nlpEv struct {
 	NTok   int    `json:"ntok"`   // content words of the query (reference tokeniser, duplicates counted)
 	Off    []int  `json:"off"`    // documents returned with NLP off (limit >= database size, fuzzy off)
 	On     []int  `json:"on"`     // ... with NLP on
+	Cap    int    `json:"cap"`    // a small TopTermsCap
+	OnCap  []int  `json:"oncap"`  // ... with NLP on under that cap
 	First4 []int  `json:"first4"` // documents matching one of the first four content words
 	OnCmp  []int  `json:"oncmp"`  // ranking of the NLP answer
 	UW     []int  `json:"uw"`     // the user's words in order (cleaned, lower case), interned
@@ -148,12 +150,18 @@ func engineNLP(args []string) int {
 			toks := refTokens(strings.ToLower(q))
 			ev.NTok = len(toks)
 			N := len(c.db.Commands) + 10
+			// (a small cap on the number of terms may be set by a caller: the first four content words are kept regardless)
 			o := database.SearchOptions{Limit: N, AllPlatforms: r.Intn(2) == 0}
 			ev.Off = docsOf(c, c.db.SearchUniversal(q, o))
 			o.UseNLP = true
 			onRes := c.db.SearchUniversal(q, o)
 			ev.On = docsOf(c, onRes)
 			ev.OnCmp = cmpSeq(toHits(onRes))
+			// a caller may cap the number of terms: the first four content words are kept regardless
+			oc := o
+			oc.TopTermsCap = []int{2, 3, 4, 5, 6}[r.Intn(5)]
+			ev.Cap = oc.TopTermsCap
+			ev.OnCap = docsOf(c, c.db.SearchUniversal(q, oc))
 			ev.OnSame = true
 			if c.file != "" && (corpus != "shipped" || i%12 == 2) {
 				if db2, err := database.LoadDatabase(c.file); err == nil {
@@ -215,7 +223,7 @@ func engineNLP(args []string) int {
 				ev.Same = a1 == analysisString(nlp.NewQueryProcessor().ProcessQuery(q))
 			}
 		}()
-		for _, f := range []*[]int{&ev.Off, &ev.On, &ev.First4, &ev.OnCmp, &ev.UW, &ev.KW, &ev.Enh, &ev.KWSyn} {
+		for _, f := range []*[]int{&ev.OnCap, &ev.Off, &ev.On, &ev.First4, &ev.OnCmp, &ev.UW, &ev.KW, &ev.Enh, &ev.KWSyn} {
 			if *f == nil {
 				*f = []int{}
 			}
